@@ -53,6 +53,14 @@ STRENGTHENED = {
     "C18-m5": "round 4: outside the check at first (code only compiled without icu_compiled_data): harness fmt_np_h with a recording custom provider",
     "C18-m6": "round 4: caught after views made under one locale are rendered after set_locale",
     "C19-m5": "round 4: missed at first (an existing file reported missing was skipped silently): `.yml` names, and LocaleFileNotFound on a complete project is a violation",
+    "C05-m7": "round 5: missed at first; pt and pt-PT rendered in one process and every plural key x locale probed with counts 0 and 1",
+    "C06-m7": "round 5: first only a broken correspondence; ordinal plural targets added to the reference graphs",
+    "C08-m8": "round 5: the generated crate does not compile at 17+ alternatives (no input beyond the project): an 18-branch range in every probe project; reported as no-failing-input-found",
+    "C10-m7": "round 5: outside the check at first (declare_locales! was never expanded with permuted keys): declare_locales! probe crate added",
+    "C12-m8": "round 5: first only a broken correspondence; find_locale's own answer is now judged by the specification",
+    "C16-m7": "round 5: invisible under plain ssr (effects never run): second harness build with effects running and tick steps",
+    "C16-m8": "round 5: same as C16-m7",
+    "C20-m8": "round 5: invisible to an expectation read off into_data_keys: documented-keys pin per option",
     "C10-m1": "missed at first (different first errors under permutation were tolerated): diagnostics of the post-decoding stages are now required to be identical under permutation, with cyclic / doubly-broken projects in the corpus",
 }
 rows = []
